@@ -8,6 +8,7 @@ from fractions import Fraction
 from hypothesis import strategies as st
 
 from ..common import HarnessError, Violation, hyp_run, import_auditok, run_cases
+from ..gen import rarely
 from ..oracles import ref_tokens, window_count
 
 import_auditok()
@@ -29,7 +30,7 @@ RULE = (
     "enumeration of 'reject_grid' -> ValueError iff the statement's predicate, success otherwise. "
     "Non-trivial = some duration is an exact decimal multiple of w whose float quotient is not an integer."
 )
-MUST_HIT = ["input_overlapping_reader", "reader_with_conflicting_window_argument", "hostile_min", "hostile_max", "hostile_sil", "input_reader", "event_of_exactly_minwin", "window_not_whole_samples",
+MUST_HIT = ["more_than_256_windows", "input_overlapping_reader", "reader_with_conflicting_window_argument", "hostile_min", "hostile_max", "hostile_sil", "input_reader", "event_of_exactly_minwin", "window_not_whole_samples",
             "grid_reject", "grid_accept"]
 ASSUMPTIONS = [
     "quotients between 1e-11 and 1e-8 from an integer are never generated (statement says 1e-9, code uses 1e-10)",
@@ -157,6 +158,8 @@ def check_case(case, rec):
             nt = True
     if any(ln == kmin for _s, ln in exp):
         classes.add("event_of_exactly_minwin")
+    if kmax > 256:
+        classes.add("more_than_256_windows")
     rec.note(case, nt, classes, out={"counts": [kmin, kmax, ksil], "regions": got})
     if got != exp:
         raise Violation(
@@ -203,6 +206,8 @@ def explicit_cases():
     return [
         base,
         dict(base, via_reader=True, tail=4),
+        dict(base, w="0.005", min=[3, "mul"], max=[257, "mul"], sil=[2, "mul"], order="fgh"),
+        dict(base, w="0.01", min=[257, "mul"], max=[300, "mul"], sil=[257, "mul"], order="bdef", via_reader=True),
         dict(base, via_reader=True, conflict_aw="long"),
         dict(base, via_reader=True, overlap=True, min=[3, "mul"], max=[6, "mul"], sil=[1, "mul"]),
         dict(base, w="0.02", min=[7, "mul"], max=[29, "mul"], sil=[7, "mul"]),
@@ -214,6 +219,11 @@ def explicit_cases():
         {"grid": [0.07, 0.1, 0.05, 0.01, 1000]},
         {"grid": [0.07, 0.07, 0.0, 0.01, 1000]},
         {"grid": [0.3, 0.3, 0.3, 0.1, 16000]},
+        # a hundred thousand windows: the 1e-9 tolerance is absolute, it does not grow with the quotient
+        {"grid": [100.000000005, 100.0, 0.0, 0.001, 1000]},
+        {"grid": [100.0, 99.999999995, 0.0, 0.001, 1000]},
+        {"grid": [100.0, 100.0, 99.999, 0.001, 1000]},
+        {"grid": [100.0, 100.0, 99.998999995, 0.001, 1000]},
     ]
 
 
@@ -222,11 +232,16 @@ def strategy(draw):
     sr = draw(st.sampled_from(RATES))
     w = draw(st.sampled_from(WINDOWS))
     kmax = draw(st.integers(1, 40))
-    kmin = draw(st.integers(1, kmax))
-    ksil = draw(st.integers(0, kmax - 1))
+    big = draw(rarely(25))
+    if big:
+        kmax = draw(st.sampled_from([255, 256, 257, 258, 300, 512, 513]))  # counts above CPython's small-int cache
+    kmin = draw(st.integers(1, kmax)) if not big else draw(st.sampled_from([1, 3, 256, 257, kmax]).filter(lambda v: v <= kmax))
+    ksil = draw(st.integers(0, kmax - 1)) if not big else draw(st.sampled_from([0, 2, 255, 256, 257, kmax - 1]).filter(lambda v: v < kmax))
     fmin = draw(st.sampled_from(["mul", "mul", "third", "half"]))
     fmax = draw(st.sampled_from(["mul", "mul", "third", "half"]))
     fsil = draw(st.sampled_from(["mul", "mul", "third", "half"]))
+    if big:
+        sr, w = 1000, draw(st.sampled_from(["0.005", "0.01"]))
     order = "".join(draw(st.permutations("abcdefgh")))[: draw(st.integers(2, 8))]
     B = int(Fraction(w) * sr)
     wf = None
